@@ -1,3 +1,4 @@
 import BadsModel.Num
 import BadsModel.Mesh
 import BadsModel.Filter
+import BadsModel.Controller
